@@ -53,22 +53,22 @@ CHECKS = {
    design_ref="DESIGN.md section 5 C14"),
  "C01": dict(level="model_checking",
    text="Ops.tla transcribes the Go specification's rules for unary and binary operators, shifts and conversions (implicit conversion of untyped operands, representability, operator applicability, zero divisors, typed overflow, shift-count rules, constant conversions); TLC evaluates every point of the operand-pool grid (8228 binary, 88 unary, 968 shift, 154 conversion points) and checks laws of the calculus. Every point is built with the real CodeBuilder: a point Go rejects that the builder accepts is an unsound acceptance, keyed by rejection reason, operator class and operand constness pattern.",
-   note='Two engines: expressions (Ops.tla: unary/binary operators, shifts, conversions over a pool of 22 operands; int8/uint8 carry range arithmetic because TLC integers are 32-bit) and statements (Decls.tla: :=, =, var, return over single values, multi-value calls and comma-ok forms, with redeclaration; constant blocks with iota and implicit repetition); C03 additionally compares selector result types and recorder objects on Select.tla's lookups. Calls with arity/variadic/ellipsis, composite literals and statement heads are not yet predicted (exercised untyped by C10/C16). Known findings are exact class-key sets per root cause (known/*.keys). Trusted: TLC, go/types (types.Eval validates Ops.tla on every point: S = T else exit 2).',
+   note='Two engines: expressions (Ops.tla: unary/binary operators, shifts, conversions over a pool of 22 operands; int8/uint8 carry range arithmetic because TLC integers are 32-bit) and statements (Decls.tla: :=, =, var, return over single values, multi-value calls and comma-ok forms, with redeclaration; constant blocks with iota and implicit repetition); C03 additionally compares selector result types and recorder objects on the lookups of Select.tla. Calls with arity/variadic/ellipsis, composite literals and statement heads are not yet predicted (exercised untyped by C10/C16). Known findings are exact class-key sets per root cause (known/*.keys). Trusted: TLC, go/types (types.Eval validates Ops.tla on every point: S = T else exit 2).',
    technique="TLA+ transcription of Go's operator typing and constant folding (Ops.tla) + TLC as exhaustive evaluator with laws + one implementation test per expression point",
    design_ref="DESIGN.md section 5 C01"),
  "C02": dict(level="model_checking",
    text='Same engine: a point that is valid Go (Ops.tla = go/types) and that the builder rejects, or on which it dies with a run-time fault, is a spurious rejection, keyed by operator class and operand pattern.',
-   note='Two engines: expressions (Ops.tla: unary/binary operators, shifts, conversions over a pool of 22 operands; int8/uint8 carry range arithmetic because TLC integers are 32-bit) and statements (Decls.tla: :=, =, var, return over single values, multi-value calls and comma-ok forms, with redeclaration; constant blocks with iota and implicit repetition); C03 additionally compares selector result types and recorder objects on Select.tla's lookups. Calls with arity/variadic/ellipsis, composite literals and statement heads are not yet predicted (exercised untyped by C10/C16). Known findings are exact class-key sets per root cause (known/*.keys). Trusted: TLC, go/types (types.Eval validates Ops.tla on every point: S = T else exit 2).',
+   note='Two engines: expressions (Ops.tla: unary/binary operators, shifts, conversions over a pool of 22 operands; int8/uint8 carry range arithmetic because TLC integers are 32-bit) and statements (Decls.tla: :=, =, var, return over single values, multi-value calls and comma-ok forms, with redeclaration; constant blocks with iota and implicit repetition); C03 additionally compares selector result types and recorder objects on the lookups of Select.tla. Calls with arity/variadic/ellipsis, composite literals and statement heads are not yet predicted (exercised untyped by C10/C16). Known findings are exact class-key sets per root cause (known/*.keys). Trusted: TLC, go/types (types.Eval validates Ops.tla on every point: S = T else exit 2).',
    technique="TLA+ transcription of Go's operator typing and constant folding (Ops.tla) + TLC as exhaustive evaluator with laws + one implementation test per expression point",
    design_ref="DESIGN.md section 5 C02"),
  "C03": dict(level="model_checking",
    text='Same engine: on every point both parties accept, the type the builder reports for the result element is compared with the type Ops.tla (= go/types) assigns, untyped kinds included.',
-   note='Two engines: expressions (Ops.tla: unary/binary operators, shifts, conversions over a pool of 22 operands; int8/uint8 carry range arithmetic because TLC integers are 32-bit) and statements (Decls.tla: :=, =, var, return over single values, multi-value calls and comma-ok forms, with redeclaration; constant blocks with iota and implicit repetition); C03 additionally compares selector result types and recorder objects on Select.tla's lookups. Calls with arity/variadic/ellipsis, composite literals and statement heads are not yet predicted (exercised untyped by C10/C16). Known findings are exact class-key sets per root cause (known/*.keys). Trusted: TLC, go/types (types.Eval validates Ops.tla on every point: S = T else exit 2).',
+   note='Two engines: expressions (Ops.tla: unary/binary operators, shifts, conversions over a pool of 22 operands; int8/uint8 carry range arithmetic because TLC integers are 32-bit) and statements (Decls.tla: :=, =, var, return over single values, multi-value calls and comma-ok forms, with redeclaration; constant blocks with iota and implicit repetition); C03 additionally compares selector result types and recorder objects on the lookups of Select.tla. Calls with arity/variadic/ellipsis, composite literals and statement heads are not yet predicted (exercised untyped by C10/C16). Known findings are exact class-key sets per root cause (known/*.keys). Trusted: TLC, go/types (types.Eval validates Ops.tla on every point: S = T else exit 2).',
    technique="TLA+ transcription of Go's operator typing and constant folding (Ops.tla) + TLC as exhaustive evaluator with laws + one implementation test per expression point",
    design_ref="DESIGN.md section 5 C03"),
  "C04": dict(level="model_checking",
    text='Same engine: constness and the exact folded value (rationals, integer division truncating toward zero, typed results in range) are compared on every accepted point; a constant expression Go rejects (overflow, unrepresentable operand, negative shift count, division by zero, out-of-range constant conversion) that the builder folds is reported.',
-   note='Two engines: expressions (Ops.tla: unary/binary operators, shifts, conversions over a pool of 22 operands; int8/uint8 carry range arithmetic because TLC integers are 32-bit) and statements (Decls.tla: :=, =, var, return over single values, multi-value calls and comma-ok forms, with redeclaration; constant blocks with iota and implicit repetition); C03 additionally compares selector result types and recorder objects on Select.tla's lookups. Calls with arity/variadic/ellipsis, composite literals and statement heads are not yet predicted (exercised untyped by C10/C16). Known findings are exact class-key sets per root cause (known/*.keys). Trusted: TLC, go/types (types.Eval validates Ops.tla on every point: S = T else exit 2).',
+   note='Two engines: expressions (Ops.tla: unary/binary operators, shifts, conversions over a pool of 22 operands; int8/uint8 carry range arithmetic because TLC integers are 32-bit) and statements (Decls.tla: :=, =, var, return over single values, multi-value calls and comma-ok forms, with redeclaration; constant blocks with iota and implicit repetition); C03 additionally compares selector result types and recorder objects on the lookups of Select.tla. Calls with arity/variadic/ellipsis, composite literals and statement heads are not yet predicted (exercised untyped by C10/C16). Known findings are exact class-key sets per root cause (known/*.keys). Trusted: TLC, go/types (types.Eval validates Ops.tla on every point: S = T else exit 2).',
    technique="TLA+ transcription of Go's operator typing and constant folding (Ops.tla) + TLC as exhaustive evaluator with laws + one implementation test per expression point",
    design_ref="DESIGN.md section 5 C04"),
  "C15": dict(level="model_checking",
